@@ -310,6 +310,7 @@ func run(cfg workerCfg, noEvidence bool) int {
 	}
 	sort.Strings(sigs)
 	nviol := 0
+	notReproduced := 0
 	os.MkdirAll(filepath.Join(cfg.Verif, "replays"), 0o755)
 	for _, s := range sigs {
 		v := bySig[s]
@@ -321,8 +322,18 @@ func run(cfg workerCfg, noEvidence bool) int {
 			continue
 		}
 		if sig != s {
-			fmt.Fprintf(os.Stderr, "HARNESS-TROUBLE: violation %q did not reproduce in a fresh process (got %q); not reported as a verdict\n", s, sig)
-			trouble = true
+			// state that outlives Models (a package-level cache, a pooled buffer) can make a violation depend on what
+			// the worker process did before: retry with the world executed twice beforehand in the same fresh process
+			if warm := withWarm(v.Case, 2); warm != nil {
+				if sig2, _, err2 := execFresh(cfg.Prop, warm, cfg); err2 == nil && sig2 == s {
+					v.Case = warm
+					sig = sig2
+				}
+			}
+		}
+		if sig != s {
+			fmt.Fprintf(os.Stderr, "NOT-REPRODUCED: violation %q seen by a worker did not reproduce in a fresh process (got %q); not reported as a verdict\n", s, sig)
+			notReproduced++
 			continue
 		}
 		// 2. minimise
@@ -357,6 +368,10 @@ func run(cfg workerCfg, noEvidence bool) int {
 		cfg.Prop, total.Evals, total.NonTrivial, evid.Distinct(total.Hashes), nviol, len(ksigs), wall)
 	if nviol > 0 {
 		return 1
+	}
+	if notReproduced > 0 {
+		fmt.Fprintf(os.Stderr, "HARNESS-TROUBLE: %d violation signature(s) were observed by workers but none reproduced in a fresh process\n", notReproduced)
+		return 2
 	}
 	if trouble {
 		return 2
@@ -421,4 +436,21 @@ func writeEvidence(cfg workerCfg, eng engine, st *evid.Stats, wall float64, nvio
 	if err := ev.Write(filepath.Join(cfg.Verif, "evidence", cfg.Prop+".json")); err != nil {
 		die2("evidence: %v", err)
 	}
+}
+
+// withWarm returns the case with its "warm" field set (call-simulator cases only).
+func withWarm(raw json.RawMessage, n int) json.RawMessage {
+	var m map[string]json.RawMessage
+	if err := json.Unmarshal(raw, &m); err != nil {
+		return nil
+	}
+	if _, ok := m["world"]; !ok {
+		return nil
+	}
+	m["warm"] = json.RawMessage(fmt.Sprint(n))
+	out, err := json.Marshal(m)
+	if err != nil {
+		return nil
+	}
+	return out
 }
